@@ -86,6 +86,40 @@ fn main()
         let seed = rng.next();
         emit_run(&mut out, &ct, shots, seed, ["stabilizer", "auto", "stabilizer", "vector"][i % 4], 6, &mut rng);
     }
+    // Structured Clifford circuits: a parity qubit entangled with SEVERAL superposed qubits, so that the measured / reset
+    // qubit carries X or Y in two or more generator rows of the normalised tableau (random circuits rarely get there),
+    // followed by measurements in another basis that expose a wrong collapse.
+    let nstruct = if thorough() { 600 } else { 120 };
+    for i in 0..nstruct
+    {
+        let nq = 3 + rng.below(3) as usize;
+        let nc = nq;
+        let mut qs: Vec<usize> = (0..nq).collect();
+        rng.shuffle(&mut qs);
+        let target = qs[0];
+        let nsrc = 2 + rng.below((nq - 2) as u64) as usize;
+        let mut ops = vec![];
+        for &q in qs[1..=nsrc].iter() { ops.push(format!("gate 1 {} H", q)); if rng.below(4) == 0 { ops.push(format!("gate 1 {} S", q)); } }
+        for &q in qs[1..=nsrc].iter()
+        {
+            let g = *rng.pick(&["CX", "CX", "CY", "CZ"]);
+            if g == "CZ" { ops.push(format!("gate 1 {} H", target)); }
+            ops.push(format!("gate 2 {} {} {}", q, target, g));
+            if g == "CZ" { ops.push(format!("gate 1 {} H", target)); }
+        }
+        match rng.below(4)
+        {
+            0 => ops.push(format!("measure {} {} {}", target, target, gen_basis(&mut rng))),
+            1 => ops.push(format!("reset {}", target)),
+            2 => { ops.push(format!("peek {} {} Z", target, target)); ops.push(format!("measure {} {} Z", target, target)); },
+            _ => { ops.push(format!("measure {} {} Z", target, target)); ops.push(format!("reset {}", qs[1])); }
+        }
+        for &q in qs[1..].iter() { if rng.below(3) != 0 { ops.push(format!("measure {} {} {}", q, q, gen_basis(&mut rng))); } }
+        ops.push(format!("measure {} {} Z", target, target));
+        let ct = CircuitText { nq, nc, ops };
+        let seed = rng.next();
+        emit_run(&mut out, &ct, [3usize, 8, 24][i % 3], seed, ["stabilizer", "auto", "vector"][i % 3], 8, &mut rng);
+    }
     let n = out.finish();
     eprintln!("c02: {} cases", n);
 }
